@@ -34,6 +34,7 @@ import BioCantor.Proofs.QueryIdentity
 import BioCantor.Proofs.QueryOptimized
 import BioCantor.Proofs.QueryTies
 import BioCantor.Props.C16
+set_option autoImplicit false   -- an unresolved name in a statement must be an error, never a bound variable
 namespace BioCantor.Props.C09
 open BioCantor BioCantor.Spec BioCantor.Spec.Query BioCantor.Model.Query BioCantor.Proofs.Query
 
